@@ -74,6 +74,14 @@ package composite
 //@   assert [C09:values-from-details] forall k:Str :: (k in $s.Data) ==> $s.Data[k] == c[k]
 //@   assert [C09,C02:secret-controllable-by-owner] contains($opts, resource.ConnectionSecretMustBeControllableBy(o.GetUID()))
 
+// C09: the update guard of the published secret: data that is empty on both sides (a stored
+// secret without data reads back as nil, the desired one carries an empty map) is identical
+// data and must not be written again.
+//@ func (*composite.APIFilteredSecretPublisher).PublishConnection$1
+//@ props C09
+//@ requires current != nil && desired != nil && typeis(current, *corev1.Secret) && typeis(desired, *corev1.Secret)
+//@ ensures [C09:empty-data-on-both-sides-is-not-rewritten] len(as(current, *corev1.Secret).Data) == 0 && len(as(desired, *corev1.Secret).Data) == 0 ==> !result
+
 // C09: connection details extracted from a composed resource carry only names that the
 // composition's extraction configs ask for; a config without the field its type needs is an
 // error; the resource's own connection data and the resource are only read.
